@@ -1480,9 +1480,107 @@ def ctor_table():
     reg('Frame.bloc')(lambda s: sf.Frame(np.arange(6).reshape(3, 2)).bloc[s.a2()])
     reg('Frame.clip')(lambda s: sf.Frame(np.zeros((3, 2))).clip(lower=sf.Frame(s.a2())))
     reg('Frame.set_index_array')(lambda s: sf.Frame(s.a2(), columns=('x', 'y')).set_index('x', drop=True))
+    # python iterables (no caller array): every array created on the way in must be frozen.  Evaluated once (kind i, mode own).
+    def it(name, f):
+        def g(s):
+            if (s.kind, s.mode) != ('i', 'own'):
+                raise _Skip()
+            return f()
+        t['iterable.' + name] = g
+    it('Series.range', lambda: sf.Series(range(3)))
+    it('Series.range_dtype', lambda: sf.Series(range(3), dtype=float))
+    it('Series.list', lambda: sf.Series([1, 2, 3]))
+    it('Series.list_mixed', lambda: sf.Series([1, 'a', None]))
+    it('Series.tuples', lambda: sf.Series([(1, 2), (3, 4)], dtype=object))
+    it('Series.gen', lambda: sf.Series(x for x in (1.5, 2.5)))
+    it('Series.gen_dtype', lambda: sf.Series((x for x in (1, 2)), dtype=np.int64))
+    it('Series.empty', lambda: sf.Series(()))
+    it('Series.empty_dtype', lambda: sf.Series((), dtype=str))
+    it('Series.str', lambda: sf.Series.from_element('abc', index=range(2)))
+    it('Series.element', lambda: sf.Series.from_element(5, index=('a', 'b')))
+    it('Series.element_index_range', lambda: sf.Series.from_element(5, index=range(3)))
+    it('Series.dict', lambda: sf.Series.from_dict(dict(a=1, b=2)))
+    it('Series.set', lambda: sf.Series({3, 4}))
+    it('Series.bigint', lambda: sf.Series([2 ** 70, 1], dtype=int))
+    it('Index.range', lambda: sf.Index(range(3)))
+    it('Index.list', lambda: sf.Index(['a', 'b']))
+    it('Index.gen', lambda: sf.Index(x for x in 'ab'))
+    it('Index.tuples', lambda: sf.Index([(1, 2), (3, 4)]))
+    it('Index.empty', lambda: sf.Index(()))
+    it('Index.dict_keys', lambda: sf.Index(dict(a=1, b=2).keys()))
+    it('Index.loc_is_iloc', lambda: sf.Index(range(3), loc_is_iloc=True))
+    it('IndexGO.range_append', lambda: _igo_range())
+    it('IndexDate.strings', lambda: sf.IndexDate(('2020-01-01', '2020-01-02')))
+    it('IndexDate.range', lambda: sf.IndexDate.from_date_range('2020-01-01', '2020-01-04'))
+    it('IndexYear.range', lambda: sf.IndexYear.from_year_range('2020', '2022'))
+    it('IH.from_labels_list', lambda: sf.IndexHierarchy.from_labels([('a', 1), ('a', 2), ('b', 1)]))
+    it('IH.from_labels_gen', lambda: sf.IndexHierarchy.from_labels(x for x in [('a', 1), ('b', 2)]))
+    it('IH.from_product_range', lambda: sf.IndexHierarchy.from_product(range(2), ('a', 'b')))
+    it('IH.from_tree', lambda: sf.IndexHierarchy.from_tree({'a': (1, 2), 'b': (1,)}))
+    it('IH.from_labels_delimited', lambda: sf.IndexHierarchy.from_labels_delimited(("'a' 1", "'b' 2")))
+    it('IH.from_labels_empty', lambda: sf.IndexHierarchy.from_labels((), depth_reference=2))
+    it('IH.reorder', lambda: sf.IndexHierarchy.from_labels([('b', 1), ('a', 2), ('b', 2)], reorder_for_hierarchy=True))
+    it('Frame.records_lists', lambda: sf.Frame.from_records([[1, 'a'], [2, 'b']], columns=range(2)))
+    it('Frame.records_gen', lambda: sf.Frame.from_records((x for x in [(1, 'a'), (2, 'b')]), index=range(2)))
+    it('Frame.dict_records', lambda: sf.Frame.from_dict_records([dict(a=1, b=2.5), dict(a=3, b=None)]))
+    it('Frame.dict_lists', lambda: sf.Frame.from_dict(dict(a=[1, 2], b=range(2))))
+    it('Frame.items_gen', lambda: sf.Frame.from_items((k, (i, i + 1)) for i, k in enumerate('ab')))
+    it('Frame.element', lambda: sf.Frame.from_element('x', index=range(2), columns=('a', 'b')))
+    it('Frame.elements', lambda: sf.Frame.from_elements([1, 2, 3]))
+    it('Frame.element_items', lambda: sf.Frame.from_element_items(((('a', 'x'), 1), (('b', 'y'), 2)), index=('a', 'b'), columns=('x', 'y'), dtype=object))
+    it('Frame.from_series', lambda: sf.Frame.from_series(sf.Series((1, 2), name='a')))
+    it('Frame.empty', lambda: sf.Frame(index=range(2), columns=()))
+    it('Frame.csv', lambda: sf.Frame.from_csv(io.StringIO('i,a,b\n0,1,x\n1,2,y'), index_depth=1))
+    it('Frame.tsv_dtypes', lambda: sf.Frame.from_tsv(io.StringIO('a\tb\n1\tx\n2\ty'), dtypes=dict(a=float)))
+    it('Frame.json', lambda: sf.Frame.from_json('[{"a": 1, "b": "x"}, {"a": 2, "b": "y"}]'))
+    it('Frame.sqlite_roundtrip', lambda: _sqlite_roundtrip())
+    it('FrameGO.setitem_range', lambda: _fgo_iter())
+    it('Frame.from_concat_series', lambda: sf.Frame.from_concat((sf.Series((1, 2), name='a'), sf.Series((3, 4), name='b'))))
+    it('Frame.from_overlay', lambda: sf.Frame.from_overlay((sf.Frame.from_element(NAN, index=range(2), columns=('a',)), sf.Frame.from_element(1, index=range(2), columns=('a',)))))
+    it('Frame.pivot', lambda: sf.Frame.from_records([('a', 'x', 1), ('a', 'y', 2), ('b', 'x', 3)], columns=('p', 'q', 'v')).pivot('p', 'q', 'v'))
+    it('Bus.frames', lambda: tuple(sf.Bus.from_frames((sf.Frame.from_element(1, index=range(2), columns=('a',), name='f1'),)).values))
     reg('ArrayGO')(lambda s: ArrayGO(s.a1().astype(object) if False else np.asarray(s.a1(), dtype=object)))
     reg('ArrayGO.own')(lambda s: _arraygo(s))
     return t
+
+
+class _Skip(Exception):
+    pass
+
+
+def _igo_range():
+    import static_frame as sf
+    g = sf.IndexGO(range(3))
+    g.append(3)
+    g.values
+    g.extend(range(4, 6))
+    return g
+
+
+def _fgo_iter():
+    import static_frame as sf
+    g = sf.FrameGO(index=range(3))
+    g['r'] = range(3)
+    g['l'] = [1.5, 2.5, 3.5]
+    g['g'] = (x for x in 'abc')
+    g['s'] = 'scalar'
+    g['t'] = ((1, 2), (3, 4), (5, 6))
+    return g
+
+
+def _sqlite_roundtrip():
+    import static_frame as sf
+    import tempfile
+    import os
+    d = tempfile.mkdtemp(prefix='c01_', dir='/var/tmp')
+    fp = os.path.join(d, 't.sqlite')
+    try:
+        sf.Frame.from_records([(1, 'a'), (2, 'b')], columns=('x', 'y'), name='t').to_sqlite(fp, label='t')
+        return sf.Frame.from_sqlite(fp, label='t', index_depth=1)
+    finally:
+        if os.path.exists(fp):
+            os.remove(fp)
+        os.rmdir(d)
 
 
 def _igo_extend(s):
@@ -1584,6 +1682,8 @@ def eval_ctor(rep, case):
     raised = None
     try:
         c = ctor_table()[name](s)
+    except _Skip:
+        return
     except Exception as e:  # e.g. dtype not accepted by this constructor: failing call, nothing to observe
         raised, c = e, None
     rp = dict(case)
@@ -1612,7 +1712,7 @@ def eval_ctor(rep, case):
     after = state(c)
     rep.check(before == after, f'C01:ctor-caller-write-visible:{tail}',
               f'{what}: writing to the caller\'s array changed the container: before {str(before)[:300]} after {str(after)[:300]}', dict(rp, key=f'C01:ctor-caller-write-visible:{tail}'))
-    rep.count(distinct_key=(name, kind, mode) if s.given else None, sample=dict(ctor=name, kind=kind, mode=mode))
+    rep.count(distinct_key=(name, kind, mode) if (s.given or arrays) else None, sample=dict(ctor=name, kind=kind, mode=mode))
 
 
 # ---------------------------------------------------------------------------------------------
